@@ -254,6 +254,35 @@ pub struct Scenario {
     pub final_reports: bool,
     /// files (Some) / directories (None) planted under an entity's root before the run
     pub plant: Vec<(Ent, String, Option<Vec<u8>>)>,
+    /// adaptive random loss that stays inside the C02 hypothesis (see `Dropper`)
+    pub dropper: Option<Dropper>,
+}
+
+/// Adaptive loss: every PDU is dropped with probability p, subject to budgets that keep every
+/// retransmission counter of the protocol below its limit: at most `limit-1` drops among
+/// {EOF, ACK(EOF)}, at most `limit-1` among {Finished, ACK(Finished)}, and at most `limit-1` among
+/// {NAK, retransmitted data / metadata} since new file data last reached the receiver. First
+/// transmissions of data and metadata may be dropped without limit.
+#[derive(Clone, Debug)]
+pub struct Dropper {
+    pub seed: u64,
+    pub p_num: u64,
+    pub p_den: u64,
+    pub limit: u32,
+}
+#[derive(Default)]
+struct DropTr {
+    eof_used: u32,
+    fin_used: u32,
+    nak_used: u32,
+    cursor: u64,
+    md_sent: bool,
+    covered: Vec<bool>,
+}
+struct DropState {
+    cfg: Dropper,
+    rng: crate::util::Rng,
+    tr: HashMap<(u64, u64), DropTr>,
 }
 
 // ------------------------------------------------------------------------------------ log
@@ -472,9 +501,122 @@ struct Sched {
     dest_seen: Vec<Option<Option<Vec<u8>>>>,
     marker_seen: Vec<Option<Option<Vec<u8>>>>,
     faults_applied: usize,
+    dropper: Option<DropState>,
 }
 
 impl Sched {
+    /// adaptive loss decision for one emission (None = not handled by the dropper)
+    fn dropper_decides(&mut self, bytes: &[u8]) -> bool {
+        let ds = match self.dropper.as_mut() {
+            Some(d) => d,
+            None => return false,
+        };
+        let pdu = match PDU::decode(&mut &bytes[..]) {
+            Ok(p) => p,
+            Err(_) => return false,
+        };
+        let key = (pdu.header.source_entity_id.to_u64(), pdu.header.transaction_sequence_number.to_u64());
+        let lim = ds.cfg.limit.saturating_sub(1);
+        let t = ds.tr.entry(key).or_default();
+        // classify
+        #[derive(PartialEq)]
+        enum C {
+            First,
+            Eof,
+            Fin,
+            Nak,
+            Free,
+        }
+        let class = match &pdu.payload {
+            PDUPayload::FileData(FileDataPDU::Unsegmented(u)) => {
+                if u.offset == t.cursor {
+                    t.cursor += u.file_data.len() as u64;
+                    C::First
+                } else {
+                    C::Nak
+                }
+            }
+            PDUPayload::FileData(_) => C::Free,
+            PDUPayload::Directive(op) => match op {
+                Operations::Metadata(_) => {
+                    if !t.md_sent {
+                        t.md_sent = true;
+                        C::First
+                    } else {
+                        C::Nak
+                    }
+                }
+                Operations::EoF(_) => C::Eof,
+                Operations::Ack(a) => {
+                    if a.directive == PDUDirective::Finished {
+                        C::Fin
+                    } else {
+                        C::Eof
+                    }
+                }
+                Operations::Finished(_) => C::Fin,
+                Operations::Nak(_) => C::Nak,
+                _ => C::Free,
+            },
+        };
+        if class == C::Free || !ds.rng.chance(ds.cfg.p_num, ds.cfg.p_den) {
+            return false;
+        }
+        match class {
+            C::First => true,
+            C::Eof => {
+                if t.eof_used < lim {
+                    t.eof_used += 1;
+                    true
+                } else {
+                    false
+                }
+            }
+            C::Fin => {
+                if t.fin_used < lim {
+                    t.fin_used += 1;
+                    true
+                } else {
+                    false
+                }
+            }
+            C::Nak => {
+                if t.nak_used < lim {
+                    t.nak_used += 1;
+                    true
+                } else {
+                    false
+                }
+            }
+            C::Free => false,
+        }
+    }
+    /// a delivery of new file data refills the NAK-phase budget
+    fn dropper_sees_delivery(&mut self, bytes: &[u8]) {
+        if let Some(ds) = self.dropper.as_mut() {
+            if let Ok(PDU { header, payload: PDUPayload::FileData(FileDataPDU::Unsegmented(u)) }) = PDU::decode(&mut &bytes[..]) {
+                let key = (header.source_entity_id.to_u64(), header.transaction_sequence_number.to_u64());
+                let t = ds.tr.entry(key).or_default();
+                let end = u.offset as usize + u.file_data.len();
+                if end <= 1 << 20 {
+                    if t.covered.len() < end {
+                        t.covered.resize(end, false);
+                    }
+                    let mut newb = false;
+                    for c in t.covered[u.offset as usize..end].iter_mut() {
+                        if !*c {
+                            *c = true;
+                            newb = true;
+                        }
+                    }
+                    if newb {
+                        t.nak_used = 0;
+                    }
+                }
+            }
+        }
+    }
+
     fn slot(&mut self, want_us: u64) -> u64 {
         if self.paced {
             let t = want_us.max(self.last_slot_us + 1000);
@@ -569,6 +711,11 @@ impl Sched {
                         }
                     }
                 }
+            }
+            if !drop && self.rules_on && self.dropper.is_some() && self.dropper_decides(&bytes) {
+                drop = true;
+                self.faults_applied += 1;
+                fate.push_str("drop ");
             }
             if !fate.is_empty() {
                 self.set_fate(ent, idx, fate.trim());
@@ -690,6 +837,7 @@ impl Sched {
     fn exec(&mut self, it: ItemKind) {
         match it {
             ItemKind::Deliver { to, bytes, origin } => {
+                self.dropper_sees_delivery(&bytes);
                 if let Some(Some(tx)) = self.inboxes.get(to) {
                     let _ = tx.send((bytes, origin));
                 } else if self.peers.contains_key(&to) {
@@ -983,6 +1131,7 @@ pub fn run(mut sc: Scenario, scratch: &str) -> RunLog {
             dest_seen: vec![],
             marker_seen: vec![],
             faults_applied: 0,
+            dropper: sc.dropper.clone().map(|c| DropState { rng: crate::util::Rng::new(c.seed), cfg: c, tr: HashMap::new() }),
         };
         // initial items: puts, timed scripts, peer starts
         for (k, t) in sc.transfers.iter().enumerate() {
